@@ -600,11 +600,11 @@ def c02_r6(ctx: Ctx, rule):
     rq = XM + ".xml_qname_to_QualifiedName"
     rf = ctx.fn(rq)
     special = {}
-    for n in walk_function(rf.node):
+    for rq2, n in [(q2, n) for q2 in ctx.helper_closure(rq) if q2.startswith(XM + ".") for n in walk_function(ctx.fn(q2).node)]:
         if isinstance(n, ast.If) and isinstance(n.test, ast.Compare) and len(n.test.ops) == 1 and isinstance(n.test.ops[0], ast.Eq):
             for side in (n.test.left, n.test.comparators[0]):
                 try:
-                    k = ctx.eval_in(rq, side)
+                    k = ctx.eval_in(rq2, side)
                 except AnalysisError:
                     continue
                 if isinstance(k, str):
@@ -616,7 +616,7 @@ def c02_r6(ctx: Ctx, rule):
                             cands.append(s.value.value if isinstance(s.value, ast.Subscript) else s.value)
                         for cexpr in cands:
                             try:
-                                v = ctx.eval_in(rq, cexpr)
+                                v = ctx.eval_in(rq2, cexpr)
                             except AnalysisError:
                                 v = None
                             if isinstance(v, NS):
@@ -1014,29 +1014,33 @@ def c10_r2(ctx: Ctx, rule):
         res.ob("PROV_BASE_CLS[%s] = %s (identity expected)" % (t.s, getattr(got, "s", got)))
         if got != t:
             res.fail(rule.id, "xml-spec::base-class::%s" % t.local, ctx.loc(C, ctx.p.units[C].tree), "record kind %s is mapped to base %s" % (t.s, getattr(got, "s", got)))
-    # attribute / structural names used through the _ns_* helpers
-    helper_args = {}
+    # attribute / structural names: every call in the XML codec that folds to a Clark name "{namespace}local" (whatever the
+    # helper that builds it is called)
+    clark = {}
     for q in [XM + ".ProvXMLSerializer.serialize_bundle", XM + ".ProvXMLSerializer.serialize", XM + ".ProvXMLSerializer.deserialize_subtree", XM + "._extract_attributes"]:
         for q2 in ctx.helper_closure(q):
             if not q2.startswith(XM + "."):
                 continue
             for c in calls_in(ctx.fn(q2).node):
-                if call_name(c) in ("_ns_prov", "_ns_xsi", "_ns_xml") and c.args:
-                    try:
-                        v = ctx.eval_in(q2, c.args[0])
-                    except AnalysisError:
-                        continue
-                    if isinstance(v, str):
-                        helper_args.setdefault((call_name(c), v), []).append(q.rsplit(".", 1)[1])
-    wanted = [("_ns_prov", sx["root"], "serialize_bundle"), ("_ns_prov", sx["bundle_element"], "serialize_bundle"), ("_ns_prov", sx["id_attr"], "serialize_bundle"),
-              ("_ns_prov", sx["ref_attr"], "serialize_bundle"), ("_ns_xsi", sx["xsi_type_attr"], "serialize_bundle"), ("_ns_xml", sx["xml_lang_attr"], "serialize_bundle"),
-              ("_ns_prov", sx["id_attr"], "deserialize_subtree"), ("_ns_prov", sx["ref_attr"], "_extract_attributes"), ("_ns_xsi", sx["xsi_type_attr"], "_extract_attributes"),
-              ("_ns_xml", sx["xml_lang_attr"], "_extract_attributes")]
-    for h, name, fn in wanted:
-        ok = fn in helper_args.get((h, name), [])
-        res.ob("%s uses %s(%r): %s" % (fn, h, name, ok))
+                if not c.args or isinstance(c.func, ast.Attribute) and c.func.attr in ("format", "join", "get", "append", "SubElement", "Element"):
+                    continue
+                try:
+                    v = ctx.eval_in(q2, c)
+                except AnalysisError:
+                    continue
+                if isinstance(v, str) and v.startswith("{") and "}" in v:
+                    clark.setdefault(v, []).append(q.rsplit(".", 1)[1])
+    ns_prov, ns_xsi, ns_xml = sd["namespaces"]["prov"], sd["namespaces"]["xsi"], sd["namespaces"]["xml"]
+    wanted = [(ns_prov, sx["root"], "serialize_bundle"), (ns_prov, sx["bundle_element"], "serialize_bundle"), (ns_prov, sx["id_attr"], "serialize_bundle"),
+              (ns_prov, sx["ref_attr"], "serialize_bundle"), (ns_xsi, sx["xsi_type_attr"], "serialize_bundle"), (ns_xml, sx["xml_lang_attr"], "serialize_bundle"),
+              (ns_prov, sx["id_attr"], "deserialize_subtree"), (ns_prov, sx["ref_attr"], "_extract_attributes"), (ns_xsi, sx["xsi_type_attr"], "_extract_attributes"),
+              (ns_xml, sx["xml_lang_attr"], "_extract_attributes")]
+    for nsuri, name, fn in wanted:
+        ck = "{%s}%s" % (nsuri, name)
+        ok = fn in clark.get(ck, [])
+        res.ob("%s uses the name %s: %s" % (fn, ck, ok))
         if not ok:
-            res.fail(rule.id, "xml-spec::name::%s::%s::%s" % (fn, h, name), ctx.loc(XM, ctx.p.units[XM].tree), "%s never refers to %s(%r) as PROV-XML requires" % (fn, h, name),
+            res.fail(rule.id, "xml-spec::name::%s::%s" % (fn, ck), ctx.loc(XM, ctx.p.units[XM].tree), "%s never refers to %s as PROV-XML requires" % (fn, ck),
                      "the %s %s is written/read under another name" % ("attribute" if name in ("id", "ref", "type", "lang") else "element", name))
     # namespace URIs behind the helpers
     dn = ctx.const(M, "DEFAULT_NAMESPACES")
@@ -1051,20 +1055,7 @@ def c10_r2(ctx: Ctx, rule):
     if got_xsd != sd["namespaces"]["xsd_xml_form"]:
         res.fail(rule.id, "xml-spec::namespace::xsd-form", ctx.loc(XM, ctx.p.units[XM].tree), "the xsd prefix is declared as %r in PROV-XML output; the schema namespace is %r" % (got_xsd, sd["namespaces"]["xsd_xml_form"]),
                  "a schema-aware reader does not recognise xsi:type='xsd:int' (the library's own reader accepts both spellings)")
-    nsx = ctx.fn(XM + "._ns_xml")
-    xml_ns = [s for s in const_strings(nsx.node) if s.startswith("http")]
-    if not xml_ns:
-        for n in walk_function(nsx.node):
-            if isinstance(n, ast.Return) and isinstance(n.value, ast.Call) and n.value.args:
-                try:
-                    v = ctx.eval_in(nsx.qual, n.value.args[0])
-                except AnalysisError:
-                    v = None
-                if isinstance(v, str):
-                    xml_ns = [v]
-    res.ob("xml namespace = %s" % xml_ns)
-    if xml_ns != [sd["namespaces"]["xml"]]:
-        res.fail(rule.id, "xml-spec::namespace::xml", ctx.loc(XM, nsx.node), "xml namespace is %s" % xml_ns)
+    res.ob("xml namespace = %s (checked through the Clark name of xml:lang)" % ns_xml)
     rq = XM + ".ProvXMLSerializer.deserialize_subtree"
     rs = const_strings(ctx.fn(rq).node)
     for name in (sx["bundle_element"], sx["other_element"]):
